@@ -8,6 +8,7 @@ import (
 	"math/big"
 	"strconv"
 	"strings"
+	"time"
 
 	"github.com/aundis/formula"
 	"github.com/ericlagergren/decimal"
@@ -134,7 +135,7 @@ var c11RetErr = core.Mon(c11, "returned-error", func(w *core.W, c *RetErrCase) {
 			calls["mid"]++
 			return nested(ctx, "inner()")
 		},
-		"fid": func(x interface{}) (interface{}, error) { return x, nil },
+		"fid":   func(x interface{}) (interface{}, error) { return x, nil },
 		"two":   func(a, b interface{}) (interface{}, error) { calls["two"]++; return "two", nil },
 		"three": func(a, b, c interface{}) (interface{}, error) { calls["three"]++; return "three", nil },
 		"after": func() (interface{}, error) { calls["after"]++; return 1, nil },
@@ -409,6 +410,184 @@ func runC11b(w *core.W) {
 			idx++
 			if w.Mine(idx) {
 				c11RetErr(w, &RetErrCase{Err: e, Wrap: wr})
+			}
+		}
+	}
+}
+
+// PathArgCase: the same caller value reaches a parameter by its name, through a nested map, through a struct field and
+// through a local. Where a value sits in the data does not change what it is: the call behaves the same on every route
+// (the same error class, or the same argument received, compared by deep snapshot).
+type PathArgCase struct {
+	Val   string `json:"val"`   // index into pathArgValues (by name)
+	Param string `json:"param"` // parameter kind of the host function
+	Var   bool   `json:"variadic,omitempty"`
+}
+
+type pathHolder struct {
+	V interface{}
+	S []string
+	A []interface{}
+	M map[string]interface{}
+	I []int
+}
+
+func pathArgValue(name string) (interface{}, bool) {
+	switch name {
+	case "nilstrs":
+		return []string(nil), true
+	case "nilanys":
+		return []interface{}(nil), true
+	case "nilints":
+		return []int(nil), true
+	case "nilmap":
+		return map[string]interface{}(nil), true
+	case "emptystrs":
+		return []string{}, true
+	case "emptyanys":
+		return []interface{}{}, true
+	case "emptymap":
+		return map[string]interface{}{}, true
+	case "strs":
+		return []string{"a", "b"}, true
+	case "anys":
+		return []interface{}{1, "x", nil}, true
+	case "ints":
+		return []int{3, 4}, true
+	case "map":
+		return map[string]interface{}{"k": 1}, true
+	case "int":
+		return 7, true
+	case "zero":
+		return 0, true
+	case "f64":
+		return 2.5, true
+	case "str":
+		return "s", true
+	case "emptystr":
+		return "", true
+	case "false":
+		return false, true
+	case "true":
+		return true, true
+	case "nil":
+		return nil, true
+	case "nilptr":
+		return (*int)(nil), true
+	case "time":
+		return c11Time, true
+	case "zerotime":
+		return time.Time{}, true
+	case "dec":
+		return decimal.New(1250, 2), true
+	case "nested":
+		return []interface{}{[]interface{}{1, 2}, []string{"q"}}, true
+	case "i32s":
+		return []int32{1, -2}, true
+	case "bytes":
+		return []byte("hi"), true
+	case "f64s":
+		return []float64{0.5, 1e3}, true
+	}
+	return nil, false
+}
+
+var pathArgValues = []string{"nilstrs", "nilanys", "nilints", "nilmap", "emptystrs", "emptyanys", "emptymap", "strs", "anys", "ints", "map", "int", "zero", "f64", "str", "emptystr", "false", "true", "nil", "time", "zerotime", "dec", "nested", "i32s", "bytes", "f64s"}
+
+// (typed nil pointers are left out: by name the caller's typed nil arrives, through a member the untyped nil - both are
+// null to the statement, and the bridge monitor covers them)
+var pathArgParams = []string{"any", "string", "strs", "anys", "ints", "int", "float64", "bool", "dec", "mapany", "f64s", "time"}
+
+var c11PathArg = core.Mon(c11, "argument-by-path", func(w *core.W, c *PathArgCase) {
+	v, ok := pathArgValue(c.Val)
+	if !ok {
+		w.Skip("unknown-value")
+		return
+	}
+	w.Count("path_argument_cases")
+	w.Nontrivial("patharg:" + core.HashStr(c))
+	var log []invocation
+	h := pathHolder{V: v}
+	routes := []string{"hostfn(v)", "hostfn(o.v)", "hostfn(o.in.v)", "hostfn(h.V)", "hostfn(ph.V)", "hostfn(this.v)", "($l = v, hostfn($l))", "hostfn(o!.v)", "hostfn(tm.v)"}
+	data := map[string]interface{}{
+		"hostfn": buildSig(SigSpec{Params: []string{c.Param}, Variadic: c.Var, Ret: "int"}, &log),
+		"v":      v, "o": map[string]interface{}{"v": v, "in": map[string]interface{}{"v": v}}, "h": h, "ph": &h,
+	}
+	// a map typed by the value's own type, and the typed struct fields
+	switch x := v.(type) {
+	case []string:
+		data["tm"] = map[string][]string{"v": x}
+		data["hs"] = pathHolder{S: x}
+		routes = append(routes, "hostfn(hs.S)")
+	case []interface{}:
+		data["tm"] = map[string][]interface{}{"v": x}
+		data["hs"] = pathHolder{A: x}
+		routes = append(routes, "hostfn(hs.A)")
+	case map[string]interface{}:
+		data["tm"] = map[string]map[string]interface{}{"v": x}
+		data["hs"] = pathHolder{M: x}
+		routes = append(routes, "hostfn(hs.M)")
+	case []int:
+		data["tm"] = map[string][]int{"v": x}
+		data["hs"] = pathHolder{I: x}
+		routes = append(routes, "hostfn(hs.I)")
+	case int:
+		data["tm"] = map[string]int{"v": x}
+	case string:
+		data["tm"] = map[string]string{"v": x}
+	case bool:
+		data["tm"] = map[string]bool{"v": x}
+	case float64:
+		data["tm"] = map[string]float64{"v": x}
+	case time.Time:
+		data["tm"] = map[string]time.Time{"v": x}
+	default:
+		data["tm"] = map[string]interface{}{"v": v}
+	}
+	var first string
+	for i, src := range routes {
+		if src == "hostfn(ph.V)" {
+			continue // (members read through a pointer to a struct are null on the pinned tree: not the same route)
+		}
+		log = log[:0]
+		_, err, panicked, pv := resolveInOnce(data, src)
+		w.Eval(1)
+		var got string
+		switch {
+		case panicked:
+			got = "PANIC " + fmt.Sprint(pv)
+		case err != nil:
+			got = "ERROR"
+		case len(log) != 1:
+			got = fmt.Sprintf("CALLS %d", len(log))
+		default:
+			got = "CALLED " + obs.SnapshotValues(log[0].Args)
+		}
+		if i == 0 {
+			first = got
+			if strings.HasPrefix(got, "CALLED") {
+				w.Count("path_argument_calls")
+			} else {
+				w.Count("path_argument_refusals")
+			}
+			continue
+		}
+		if got != first {
+			w.Violation("argument-by-path", "C11/argument-depends-on-where-the-value-sits", c, clipS(first, 200), clipS(got, 200),
+				fmt.Sprintf("%s against %s with v = %s (%T) and a parameter of kind %s (variadic %v)", src, routes[0], c.Val, v, c.Param, c.Var))
+			return
+		}
+	}
+})
+
+func runC11PathArgs(w *core.W) {
+	i := 0
+	for _, v := range pathArgValues {
+		for _, p := range pathArgParams {
+			for _, variadic := range []bool{false, true} {
+				if i++; w.Mine(i) {
+					c11PathArg(w, &PathArgCase{Val: v, Param: p, Var: variadic})
+				}
 			}
 		}
 	}
